@@ -13,7 +13,8 @@ RULE = ("seeded forests of roots / rooted nodes / unrooted nodes (Node and Array
         "all caller objects (tree shape, names, roots, metadata identity and content, data tokens, list length and item identity) "
         "before and after, re-addability of every unrooted node, and a second save of the same input to a second fresh path "
         "(file walks compared with the UUID blanked); PointLists of 0 / 1 / n points and of one 0-dimensional record, value, shape "
-        "and IDENTITY of every data array before and after, Roots called `<child>_root`; non-trivial = list input or failing save; distinct by recipe hash")
+        "and IDENTITY of every data array before and after, Roots called `<child>_root`; a save after the case's first call must "
+        "equal a first save of freshly built objects; non-trivial = list input or failing save; distinct by recipe hash")
 
 
 class Objs:
